@@ -127,8 +127,18 @@ func (c *fctx) checkOrder(n ast.Node) {
 					calls = append(calls, x)
 				}
 			}
-			c.t.order07(x, written, &calls)      // [ext:T07] slice arguments written in place by the callee
+			c.t.order07(x, written, &calls)        // [ext:T07] slice arguments written in place by the callee
+			for _, a := range c.t.writtenArgs(x) { // in-out slice arguments (trans_func.go)
+				if o, _ := c.t.rootObj(a); o != nil {
+					written[o] = true
+					calls = append(calls, x)
+				}
+			}
 			if o := c.t.seqWrites(x); o != nil { // [seq] atomic Store / CompareAndSwap / Add
+				written[o] = true
+				calls = append(calls, x)
+			}
+			for _, o := range c.t.foreignWrites08(x) { // [ext:T08] slice arguments a foreign function writes
 				written[o] = true
 				calls = append(calls, x)
 			}
@@ -140,6 +150,7 @@ func (c *fctx) checkOrder(n ast.Node) {
 					}
 				}
 			}
+			c.t.outAssigned15(x, func(o types.Object) { written[o], calls = true, append(calls, x) }) // [ext:T15]
 		}
 		return true
 	})
@@ -167,7 +178,13 @@ func (c *fctx) taintCalls(n ast.Node, en *env) *env {
 	ast.Inspect(n, func(m ast.Node) bool {
 		if x, ok := m.(*ast.CallExpr); ok {
 			if fn, _ := c.t.calleeOf(x); fn != nil && !c.t.noRetain07(fn) { // [ext:T07] not: callees that can neither keep nor return it
-				for _, a := range x.Args {
+				for i, a := range x.Args {
+					if fi := c.t.funcs[fn]; fi != nil && i < len(fi.noesc) && fi.noesc[i] {
+						continue // the callee neither keeps nor returns this slice (trans_func.go)
+					}
+					if c.t.notKept15(fn, i) { // [ext:T15] an out-parameter of a callee that can neither return nor store the slice
+						continue
+					}
 					if tv, ok := c.t.info.Types[a]; ok && tv.Type != nil {
 						if _, isSlice := tv.Type.Underlying().(*types.Slice); isSlice {
 							if key, ok := c.aliasSource(a, en); ok && key != "?call" {
@@ -249,7 +266,7 @@ func (c *fctx) assignTo(lhs ast.Expr, val string, en *env, k func() string) stri
 		return c.expr(ix.X, en, func(b string) string {
 			return c.expr(ix.Index, en, func(i string) string {
 				v := c.fresh("s")
-				return fmt.Sprintf("do %s <- m_set %s %s %s;;\n%s", v, b, i, val, c.store(ix.X, v, en, k))
+				return fmt.Sprintf("do %s <- %s %s %s %s;;\n%s", v, setFn08(c.t.exprType(ix.X)), b, i, val, c.store(ix.X, v, en, k)) // [ext:T08] m_setA on [][]byte
 			})
 		})
 	}
@@ -332,6 +349,10 @@ func (c *fctx) stmt(s ast.Stmt, en *env, lc *lctx, next kont) string {
 				t.fail(s, "pointer variable %s", it.id.Name)
 			}
 			if it.val == nil {
+				c.noZero08(g, it.id) // [ext:T08]
+				if noZero(g) {
+					t.fail(s, "zero value of %s, which contains a function (nil functions are not modelled)", it.id.Name)
+				}
 				en2, name := c.declare(en, obj, g)
 				return fmt.Sprintf("let %s := %s in\n%s", name, g.zero(), rec(i+1, en2))
 			}
@@ -339,6 +360,7 @@ func (c *fctx) stmt(s ast.Stmt, en *env, lc *lctx, next kont) string {
 			if g.k == kErr { // [ext:T20] var err error = nil
 				c.markNilAs20(it.val)
 			}
+			c.refuseNilOpaque08(g, it.val) // [ext:T08]
 			return c.expr(it.val, en, func(v string) string {
 				en2, name := c.declare(c.taintCalls(it.val, en), obj, g)
 				en2 = c.noteAlias(it.id, it.val, en2)
@@ -348,6 +370,17 @@ func (c *fctx) stmt(s ast.Stmt, en *env, lc *lctx, next kont) string {
 		return rec(0, en)
 	case *ast.ReturnStmt:
 		c.checkOrder(s)
+		if len(x.Results) == 0 && len(c.fi.named) > 0 { // [BitsCode] bare return: the current values of the named results
+			var vs []string
+			for _, rv := range c.fi.named {
+				v := en.lookup(rv)
+				if v == nil {
+					t.fail(s, "bare return: named result %s is not in scope", rv.Name())
+				}
+				vs = append(vs, v.name)
+			}
+			return lc.ret(c.retTerm(en, vs))
+		}
 		if len(x.Results) == 1 && len(c.fi.results) > 1 {
 			call, ok := ast.Unparen(x.Results[0]).(*ast.CallExpr)
 			if !ok {
@@ -358,10 +391,13 @@ func (c *fctx) stmt(s ast.Stmt, en *env, lc *lctx, next kont) string {
 		if len(x.Results) != len(c.fi.results) {
 			t.fail(s, "return with %d values in a function with %d results", len(x.Results), len(c.fi.results))
 		}
+		c.inRet++ // [BitsCode] struct literals in a return operand may hold named slices
+		defer func() { c.inRet-- }()
 		for i, r := range x.Results { // [ext:T20] `return v, nil` in a function with an error result
 			if c.fi.results[i].k == kErr {
 				c.markNilAs20(r)
 			}
+			c.refuseNilOpaque08(c.fi.results[i], r) // [ext:T08]
 		}
 		return c.args(x.Results, en, func(vs []string) string { return lc.ret(c.retTerm(en, vs)) })
 	case *ast.BranchStmt:
@@ -382,7 +418,7 @@ func (c *fctx) stmt(s ast.Stmt, en *env, lc *lctx, next kont) string {
 	case *ast.IfStmt:
 		return c.ifStmt(x, en, lc, next)
 	case *ast.SwitchStmt: // [seq] tagless switch -> if / else-if chain
-		return c.switchStmt(x, en, lc, next)
+		return c.switch15(x, en, lc, next) // [ext:T15] a tag becomes `tag == e` conditions, then c.switchStmt
 	case *ast.ForStmt:
 		return c.forStmt(x, en, lc, next)
 	case *ast.RangeStmt:
@@ -394,6 +430,17 @@ func (c *fctx) stmt(s ast.Stmt, en *env, lc *lctx, next kont) string {
 
 // retTerm: the value a `return vs` produces: the results, preceded by the receiver when the method writes it.
 func (c *fctx) retTerm(en *env, vs []string) string {
+	if io := c.inoutParams(en); len(io) > 0 { // receiver, in-out slices, results (trans_func.go)
+		var pre []string
+		if c.fi.recv != nil && c.fi.writes {
+			pre = append(pre, en.lookup(c.fi.recv).name)
+		}
+		pre = append(pre, io...)
+		if len(vs) > 0 {
+			pre = append(pre, tuple(vs))
+		}
+		return tuple(pre)
+	}
 	var parts []string
 	if c.fi.recv != nil && c.fi.writes {
 		parts = append(parts, en.lookup(c.fi.recv).name)
@@ -402,6 +449,8 @@ func (c *fctx) retTerm(en *env, vs []string) string {
 		parts = append(parts, c.globalName20(g, en, c.fi.decl))
 	}
 	parts = append(parts, c.outNames07(en)...) // [ext:T07] slice parameters written in place are returned
+	parts = append(parts, c.outNames08(en)...) // [ext:T08] output parameters
+	parts = append(parts, c.outNames15(en)...) // [ext:T15] slice parameters written in place are returned
 	if len(parts) == 0 {
 		return tuple(vs)
 	}
@@ -467,7 +516,7 @@ func (c *fctx) assign(x *ast.AssignStmt, en *env, next kont) string {
 			en3 := en2
 			if rhs != nil {
 				en3 = c.noteAlias(lhs, rhs[i], en2)
-			} else if k := c.sliceKey(lhs, en2); k != "" && t.exprType(lhs).k == kSlice {
+			} else if k := c.sliceKey(lhs, en2); k != "" && c.lhsType08(lhs, en2).k == kSlice { // [ext:T08] `a, err := f()` with err redeclared: no entry in info.Types
 				en3 = en2.share(k)
 			}
 			return c.assignTo(lhs, vs[i], en2, func() string { return rec(i+1, en3) })
@@ -487,6 +536,7 @@ func (c *fctx) assign(x *ast.AssignStmt, en *env, next kont) string {
 	for i := range x.Lhs { // [ext:T20] err = nil
 		if x.Tok == token.ASSIGN {
 			c.markNil20(x.Rhs[i], x.Lhs[i])
+			c.refuseNilAssign08(x.Lhs[i], x.Rhs[i], en) // [ext:T08]
 		}
 	}
 	if len(x.Lhs) > 1 {
@@ -725,7 +775,7 @@ func (c *fctx) rangeStmt(x *ast.RangeStmt, en *env, lc *lctx, next kont) string 
 				if live := c.liveRange07(x, en); live != "" && set[t.info.Uses[ast.Unparen(x.X).(*ast.Ident)]] { // [ext:T07] the body writes the slice in place: read the current one
 					from = live
 				}
-				return fmt.Sprintf("do %s <- m_get %s %s;;\n%s", ev, from, idx, bindVar(x.Value, ev, rest))
+				return fmt.Sprintf("do %s <- %s %s %s;;\n%s", ev, getFn08(t.exprType(x.X)), from, idx, bindVar(x.Value, ev, rest)) // [ext:T08]
 			}))
 			return b.String()
 		}
@@ -744,6 +794,8 @@ func (t *Translator) emitFunc(fi *funcInfo) string {
 	if fi.loops {
 		params = append(params, "(fuel : nat)")
 	}
+	params = append(params, t.extParam08(fi)...) // [ext:T08] ext' : Foreign
+	t.checkHandles08(fi)                         // [ext:T08]
 	sig := fi.obj.Type().(*types.Signature)
 	if fi.recv != nil {
 		var name string
@@ -764,7 +816,7 @@ func (t *Translator) emitFunc(fi *funcInfo) string {
 		var name string
 		en, name = c.declare(en, p, g)
 		params = append(params, fmt.Sprintf("(%s : %s)", name, g.coq()))
-		if g.k == kSlice && !fi.isOut07(i) { // [ext:T07] a parameter written in place is handed back to the caller instead
+		if g.k == kSlice && !(i < len(fi.noesc) && fi.noesc[i]) && !fi.isOut08(i) && !fi.isOut15(i) && !fi.isOut07(i) { // [func] noesc; [ext:T08] not an output parameter; [ext:T15] / [ext:T07] written in place: returned instead
 			en = en.share(name) // the caller still holds the array
 		}
 	}
@@ -774,14 +826,31 @@ func (t *Translator) emitFunc(fi *funcInfo) string {
 	}
 	rt := tupleType(rts)
 	var stateT []string
-	if fi.recv != nil && fi.writes {
-		stateT = append(stateT, fi.recvT.coq())
+	if ioT := t.inoutTypes(fi); len(ioT) > 0 { // receiver, in-out slices, results (trans_func.go)
+		var pre []string
+		if fi.recv != nil && fi.writes {
+			pre = append(pre, fi.recvT.coq())
+		}
+		pre = append(pre, ioT...)
+		if len(rts) > 0 {
+			pre = append(pre, rt)
+		}
+		rt = tupleType(pre)
+	} else {
+		if fi.recv != nil && fi.writes {
+			stateT = append(stateT, fi.recvT.coq())
+		}
+		for _, g := range t.ordered20(fi.gwrites) { // [ext:T20]
+			stateT = append(stateT, g.ty.coq())
+		}
 	}
-	for _, g := range t.ordered20(fi.gwrites) { // [ext:T20]
-		stateT = append(stateT, g.ty.coq())
+	stateT = append(stateT, t.outTypes08(fi)...) // [ext:T08] output parameters
+	for range fi.outs15 {                        // [ext:T15]
+		stateT = append(stateT, "list Z")
 	}
 	stateT = append(stateT, t.outTypes07(fi)...) // [ext:T07]
 	t.checkOuts07(fi)
+	t.checkOuts15(fi) // [ext:T15]
 	if len(stateT) > 0 {
 		if len(rts) > 0 {
 			stateT = append(stateT, rt)
@@ -791,9 +860,15 @@ func (t *Translator) emitFunc(fi *funcInfo) string {
 	if strings.Contains(rt, " ") && !strings.HasPrefix(rt, "(") {
 		rt = "(" + rt + ")"
 	}
+	prefix := ""
+	for i, rv := range fi.named { // [BitsCode] named results are locals that start at their zero value
+		var name string
+		en, name = c.declare(en, rv, fi.results[i])
+		prefix += fmt.Sprintf("let %s := %s in\n", name, fi.results[i].zero())
+	}
 	lc := &lctx{ret: func(v string) string { return "Ret " + v }}
 	list, timed := t.bodyList(fi) // [seq] a timed tail becomes the parameter rest'timed
-	body := c.stmts(list, en, lc, kont{f: func(e *env) string {
+	body := prefix + c.stmts(list, en, lc, kont{f: func(e *env) string {
 		if timed {
 			return c.tailCall(e, rt)
 		}
